@@ -941,7 +941,24 @@ fn dev_float_case<F: Fl>(rng: &mut Rng, acc: &mut Acc) {
         acc.count("pairs_with_nan");
     }
     let (fa, fb) = (rng.below(8), rng.below(8));
-    let (la, lb) = (Layout::family(nd, fa), Layout::family(nd, fb));
+    let (mut la, mut lb) = (Layout::family(nd, fa), Layout::family(nd, fb));
+    if rng.chance(0.2) {
+        // BOTH operands in the same non-contiguous layout with a unit inner stride: a window of columns of a wider
+        // parent, or every other row (identical strides, all positive, innermost 1 - and still not contiguous)
+        let mut l = Layout::canonical(nd);
+        if rng.chance(0.5) {
+            l.pad_b[nd - 1] = rng.below(3);
+            l.pad_a[nd - 1] = 1 + rng.below(3);
+        } else {
+            l.step[0] = 2;
+            if nd >= 2 && rng.chance(0.5) {
+                l.pad_a[nd - 1] = 1;
+            }
+        }
+        la = l.clone();
+        lb = l;
+        acc.count("same_noncontiguous_unit_inner_stride_layout_for_both");
+    }
     acc.count(&format!("layout_pair_{}_{}", fa, fb));
     let ea = Embedded::new(&shape, &a, la.clone());
     let eb = Embedded::new(&shape, &b, lb.clone());
@@ -1062,7 +1079,41 @@ fn dev_float_case<F: Fl>(rng: &mut Rng, acc: &mut Acc) {
 /// C order, F order, all axes reversed (negative strides), stepped along the last axis.
 fn relayout<T: Clone>(shape: &[usize], data: &[T], f: usize) -> ArrayD<T> {
     let nd = shape.len();
-    match f % 4 {
+    match f % 6 {
+        4 => {
+            // a window of columns of a wider owned array: unit inner stride, larger row pitch
+            let mut big_shape = shape.to_vec();
+            big_shape[nd - 1] += 3;
+            let w = shape[nd - 1];
+            let rows: usize = shape[..nd - 1].iter().product();
+            let mut v = Vec::with_capacity(rows * (w + 3));
+            for r in 0..rows {
+                v.push(data[0].clone());
+                v.extend(data[r * w..(r + 1) * w].iter().cloned());
+                v.push(data[0].clone());
+                v.push(data[0].clone());
+            }
+            if data.is_empty() {
+                return Array::from_shape_vec(IxDyn(shape), vec![]).unwrap();
+            }
+            let mut a = Array::from_shape_vec(IxDyn(&big_shape), v).unwrap();
+            a.slice_axis_inplace(Axis(nd - 1), ndarray::Slice::new(1, Some(1 + w as isize), 1));
+            a
+        }
+        5 => {
+            // every other row of a taller owned array
+            let mut big_shape = shape.to_vec();
+            big_shape[0] *= 2;
+            let inner: usize = shape[1..].iter().product();
+            let mut v = Vec::with_capacity(data.len() * 2);
+            for r in 0..shape[0] {
+                v.extend(data[r * inner..(r + 1) * inner].iter().cloned());
+                v.extend(data[r * inner..(r + 1) * inner].iter().rev().cloned());
+            }
+            let mut a = Array::from_shape_vec(IxDyn(&big_shape), v).unwrap();
+            a.slice_axis_inplace(Axis(0), ndarray::Slice::new(0, None, 2));
+            a
+        }
         0 => Array::from_shape_vec(IxDyn(shape), data.to_vec()).unwrap(),
         1 => {
             let c = Array::from_shape_vec(IxDyn(shape), data.to_vec()).unwrap();
@@ -1113,7 +1164,8 @@ macro_rules! dev_int_case {
             let mk = $mk;
             let a: Vec<$t> = ai.iter().map(|&x| mk(x)).collect();
             let b: Vec<$t> = bi.iter().map(|&x| mk(x)).collect();
-            let (fa, fb) = (rng.below(8), rng.below(8));
+            let fa = rng.below(12);
+            let fb = if rng.chance(0.25) { fa } else { rng.below(12) };
             let xa = Array::from_shape_vec(IxDyn(&shape), a.clone()).unwrap();
             let xb = Array::from_shape_vec(IxDyn(&shape), b.clone()).unwrap();
             let va = relayout(&shape, &a, fa);
@@ -1316,6 +1368,19 @@ fn entropy_case<F: Fl>(rng: &mut Rng, acc: &mut Acc) {
             qf[i] = if F::IS32 { F::of(1.0e-25) } else { F::of(1.0e-200) };
         }
         acc.count("extreme_ratio_cases");
+    }
+    // a quotient q_i / p_i that is SUBNORMAL but not zero (p, q themselves ordinary normal numbers): its logarithm is
+    // finite, so the divergence is finite - inaccurate (F9), but never infinite
+    if nan_mode >= 3 && rng.chance(0.05) {
+        let i = rng.below(n);
+        if F::IS32 {
+            pf[i] = F::of(10f64.powf(18.0 + rng.unit() * 3.0));
+            qf[i] = F::of(10f64.powf(-22.0 - rng.unit() * 2.0));
+        } else {
+            pf[i] = F::of(10f64.powf(100.0 + rng.unit() * 3.0));
+            qf[i] = F::of(10f64.powf(-210.0 - rng.unit() * 8.0));
+        }
+        acc.count("subnormal_quotient_cases");
     }
     let (lp, lq) = (rlay(rng, nd), rlay(rng, nd));
     let ep = Embedded::new(&shape, &pf, lp.clone());
